@@ -7409,16 +7409,17 @@ typename SoPlexBase<R>::RangeType SoPlexBase<R>::_rangeTypeReal(const R& lower,
 {
    assert(lower <= upper);
 
-   if(lower <= R(-infinity))
+   // use the same infinity threshold as _rangeTypeRational(), i.e., the INFTY parameter
+   if(lower <= -realParam(SoPlexBase<R>::INFTY))
    {
-      if(upper >= R(infinity))
+      if(upper >= realParam(SoPlexBase<R>::INFTY))
          return RANGETYPE_FREE;
       else
          return RANGETYPE_UPPER;
    }
    else
    {
-      if(upper >= R(infinity))
+      if(upper >= realParam(SoPlexBase<R>::INFTY))
          return RANGETYPE_LOWER;
       else if(lower == upper)
          return RANGETYPE_FIXED;
